@@ -13,6 +13,7 @@ import (
 	"github.com/robertkrimen/otto"
 
 	"verif/harness/internal/c01"
+	"verif/harness/internal/c17/scen"
 	"verif/harness/internal/core"
 	"verif/harness/internal/tlc"
 )
@@ -93,15 +94,22 @@ func Check(c *core.Ctx) (map[string]any, []string, error) {
 	configs := []string{"mutate-original", "mutate-copy", "copy-of-copy-mutate-middle", "copy-of-copy-mutate-last"}
 	recs := make([]*rec, nProg)
 	for i := range recs {
-		body := g.Program()
 		pre := 4 // the leading var declarations stay in the history
-		rest := body[pre:]
-		a := rng.Intn(len(rest) + 1)
-		b := a + rng.Intn(len(rest)-a+1)
-		h := append(append([]c01.N{}, body[:pre]...), rest[:a]...)
-		m := rest[a:b]
-		q := append(append([]c01.N{}, rest[b:]...), epilogue()...)
-		r := &rec{config: configs[i%len(configs)]}
+		var h, m, q []c01.N
+		if i%2 == 0 {
+			// targeted behaviour: one family per kind of reference the copy must remap
+			h, m, q = scen.Scenario(rng)
+			q = append(q, epilogue()...)
+		} else {
+			body := g.Program()
+			rest := body[pre:]
+			a := rng.Intn(len(rest) + 1)
+			b := a + rng.Intn(len(rest)-a+1)
+			h = append(append([]c01.N{}, body[:pre]...), rest[:a]...)
+			m = rest[a:b]
+			q = append(append([]c01.N{}, rest[b:]...), epilogue()...)
+		}
+		r := &rec{config: configs[(i/2)%len(configs)]}
 		// the history is sometimes two programs (state carried between Run calls)
 		hs := [][]c01.N{h}
 		if len(h) > pre+1 && i%3 == 0 {
